@@ -180,7 +180,21 @@ def run_halfclose(o, ctx):
     over = ("P:s:%s,r,|,s:%s,r,s:%s,r,c,e/P:s:%s,|,r,c,e/S:e" % (hx(p1), hx(p1), hx(p1), hx(p1)), [",".join([r200] * 3 + ["EOF"]), r200 + ",EOF", "EOF"])
     for m, th in (("serve", 1), ("serve", 2), ("threaded", 1)):
         lines.append("SERVE mode=%s threads=%d plan=%s" % (m, th, over[0])); wants.append(over[1])
+    def tr_of(a):
+        p = a.split()
+        return p[1].split("/") if len(p) >= 2 and p[0] == "V" else None
+
+    def settle(ls, answers, ok):
+        """SERVE scenarios run many servers side by side on ports picked a moment earlier and have deadlines: a line that deviates is
+        run once more, alone; only a deviation that shows again counts"""
+        for i, (l, a) in enumerate(zip(ls, answers)):
+            if not ok(i, a):
+                answers[i] = C.run_sharded(ctx["kimpl"], [l], shards=1)[0]
+                o.extra["scenarios_rerun_alone_after_a_deviation"] = o.extra.get("scenarios_rerun_alone_after_a_deviation", 0) + 1
+        return answers
+
     impl = C.run_sharded(ctx["kimpl"], lines, shards=min(C.NCPU, len(lines)))
+    impl = settle(lines, impl, lambda i, a: tr_of(a) == wants[i])
     for c, a, w in zip(lines, impl, wants):
         o.evaluations += 1
         p = a.split()
@@ -190,7 +204,8 @@ def run_halfclose(o, ctx):
     # a handler error of ANY kind ends the connection, in epoll mode as in the others (nothing further is read)
     kinds = ["wouldblock", "interrupted", "timedout", "brokenpipe", "reset", "other", "eof", "invaliddata", "aborted"]
     klines = ["SERVE mode=%s threads=2 plan=P:s:%s,r,s:%s,r,e/S:e" % (m, hx(b"GET /errkind/%s HTTP/1.1\r\n\r\n" % k.encode()), hx(p1)) for k in kinds for m in ("epoll", "threaded")]
-    for c, a in zip(klines, C.run_sharded(ctx["kimpl"], klines, shards=min(C.NCPU, len(klines)))):
+    kimpl_ = settle(klines, C.run_sharded(ctx["kimpl"], klines, shards=min(C.NCPU, len(klines))), lambda i, a: (tr_of(a) or [None])[0] == "EOF,EOF,EOF")
+    for c, a in zip(klines, kimpl_):
         o.evaluations += 1
         pz = a.split()
         got = pz[1].split("/")[0] if len(pz) >= 2 and pz[0] == "V" else None
